@@ -75,7 +75,7 @@ Walk(s, k, counter) == IF k > Len(s) THEN <<>> ELSE
 Edits == [metric |-> Cardinality({i \in 1..Len(solves) : solves[i].edit = "metric"}),
           lmi |-> Cardinality({i \in 1..Len(solves) : solves[i].edit = "lmi"})]
 SolveOpts == [wrapper : Wrappers, mode : {"dual", "primal"}, heur : {"none", "trace", "logdet1", "logdet2"},
-              edit : {"none", "init", "metric", "lmi", "infeasible", "feasible-again"}, verbose : {0, 1}]
+              edit : {"none", "init", "metric", "lmi", "block", "infeasible", "feasible-again"}, verbose : {0, 1}]
 Infeasible(sv) == Cardinality({i \in 1..Len(sv) : sv[i].edit = "infeasible"}) > Cardinality({i \in 1..Len(sv) : sv[i].edit = "feasible-again"})
 Solve ==
   /\ Len(solves) < MaxSolves
@@ -83,11 +83,13 @@ Solve ==
        /\ (o.edit # "none" => Len(solves) >= 1)                      \* edits happen between solves
        /\ (o.edit = "feasible-again" => Infeasible(solves))
        /\ (o.edit = "infeasible" => ~Infeasible(solves))
+       /\ (o.edit = "block" => prog.part = 1 /\ \A i \in 1..Len(solves) : solves[i].edit # "block")   \* decompose one more point
        /\ (o.verbose = 1 => o.heur = "none" /\ o.mode = "dual")
        /\ LET sv == Append(solves, o)
               ok == ~Infeasible(sv)
               cl == IF DevF3 THEN nClassLmi + ClassLmis(prog.cls) ELSE ClassLmis(prog.cls)
-              pr == IF prog.part = 0 THEN 0 ELSE IF DevF4 THEN nPartRows + 4 ELSE 4
+              nb == Cardinality({i \in 1..Len(sv) : sv[i].edit = "block"})
+              pr == IF prog.part = 0 THEN 0 ELSE IF DevF4 THEN nPartRows + 4 + 5 * nb ELSE 4 + 5 * nb
               ed == [metric |-> Cardinality({i \in 1..Len(sv) : sv[i].edit = "metric"}),
                      lmi |-> Cardinality({i \in 1..Len(sv) : sv[i].edit = "lmi"})]
               s == SentList(prog, ed, cl, pr) \o (IF Infeasible(sv) THEN <<Sc("pep")>> ELSE <<>>)
@@ -118,7 +120,8 @@ SentOnce == phase = "build" \/
    LET ed == Edits IN
    /\ Cardinality({k \in 1..Len(sent) : sent[k].src = "metric"}) = prog.metrics + ed.metric
    /\ Cardinality({k \in 1..Len(sent) : sent[k].src = "class" /\ sent[k].k = "lmi"}) = ClassLmis(prog.cls)
-   /\ Cardinality({k \in 1..Len(sent) : sent[k].src = "part"}) = (IF prog.part = 1 THEN 4 ELSE 0)
+   /\ Cardinality({k \in 1..Len(sent) : sent[k].src = "part"})
+        = (IF prog.part = 1 THEN 4 + 5 * Cardinality({i \in 1..Len(solves) : solves[i].edit = "block"}) ELSE 0)
 \* C13: a cached value belongs to the current epoch
 Fresh == cache # 0 => cache = epoch
 \* C05: the native list has exactly one entry per scalar, 1 + n*n per LMI, the Gram PSD first, one extra row with a heuristic
